@@ -12,7 +12,24 @@ def npRows {α : Type} (A : List α) (item : Item) : Option (List α) :=
   | .slice start stop => some (Np.take A (Np.sliceIdx A.length start stop 1))
   | .list l => l.mapM fun i => if -n ≤ i ∧ i < n then A[(if i < 0 then i + n else i).toNat]? else none
 
-/-- the index expressions C01 quantifies over, for a recording of `n` rows -/
+/-- the index expressions C01 quantifies over, for a recording of `n` rows ("integers in [-n, n), slices with
+start/stop in [-n, n] or None that select >= 1 row, strictly increasing index lists/arrays").
+
+What the real reader does OUTSIDE this domain (ran it on a 6-row in-memory reader and on the same rows in two
+flat files of 4 + 2 rows; `_get_subitems`, traces.py:60-99 — no theorem, no alarm: outside the quantifier):
+* slice bound `> n`: clamped (`min(v, n)`), as NumPy does: `r[0:7]`, `r[2:100]`, `r[:13]` are NumPy's rows;
+* slice bound `< -n`: reduced modulo `n` (`v % n`) where NumPy clamps to 0: `r[-7:]` is the LAST row only
+  (NumPy: all 6 rows), `r[:-7]` is rows 0..4 (NumPy: no row), `r[-13:]` is the last row; `r[-8:3]` is an empty
+  block on one part and `ValueError` (nothing to stack) on two parts (NumPy: rows 0..2);
+* a slice selecting no row: `ValueError` from `np.vstack([])` (`r[6:9]`, `r[7:]`; `r[4:4]`, `r[5:1]` on 4 + 2
+  rows), or an empty block when `stop - 1` is not in an earlier part than `start` (`r[2:2]`; `r[4:4]` on one part)
+  (NumPy: an empty block);
+* integer `>= n`: `IndexError`, as NumPy; integer `< -n`: `i % n`, a row is returned (`r[-7]` is the last row,
+  `r[-12]` row 0) where NumPy raises `IndexError`;
+* index list: an entry `>= n`: `IndexError`, as NumPy; a negative entry: `ValueError` (NumPy counts from the
+  end); a repeated entry: `AssertionError` (`np.diff` has a zero; NumPy repeats the row); a decreasing list within
+  one part is answered as NumPy does (`r[[2, 1]]`), across parts the rows come back in PART order (`r[[5, 1]]` on
+  4 + 2 rows is rows 1, 5; NumPy: 5, 1); the empty list raises `ValueError` (NumPy: an empty block). -/
 def InDom (n : Nat) : Item → Prop
   | .int i => -(n : Int) ≤ i ∧ i < n
   | .slice start stop =>
